@@ -8,15 +8,34 @@ import TB.Props.C06
 namespace TB
 
 theorem C09_decode_total (inp : Bytes) : decode inp ≠ .panic := by
-  sorry
+  exact C08_no_panic inp
 
 /-- the slice of the info dictionary is always in range, and no other step of loading can panic -/
 theorem C09_load_total (H : Bytes → Bytes) (inp : Bytes) : load H inp ≠ .panic := by
-  sorry
+  cases hd : decode inp with
+  | err => simp [load, hd]
+  | panic => exact absurd hd (C08_no_panic inp)
+  | ok t =>
+    cases t with
+    | str x => simp [load, hd]
+    | int x a b => simp [load, hd]
+    | list x a b => simp [load, hd]
+    | dict rks rvs s0 c0 =>
+      cases hf : findDict rks rvs kInfo with
+      | none => simp [load, hd, hf]
+      | some r =>
+        obtain ⟨iks, ivs, s, c⟩ := r
+        have hf' := findDict_eq_some.1 hf
+        obtain ⟨_, _, hsp, _, _⟩ := C08_sound inp _ hd
+        obtain ⟨_, _, _, _, hsl⟩ := spansExact_dict hsp
+        obtain ⟨h1, h2, _, _, _⟩ := spansExact_dict (spansExactList_mem hsl _ (findValue_mem hf'))
+        rw [load_eq_of_info hd hf' h1 h2]
+        cases specInfo (eraseDict iks ivs) <;> simp
 
 /-- the piece layout of a loaded torrent never panics either (index out of range, underflow) -/
 theorem C09_layout_total (H : Bytes → Bytes) (inp : Bytes) (T : Torrent) (h : load H inp = .ok T) :
     constructPieces T.info.pieceLength T.info.length (T.info.files.map (·.map (·.length))) T.info.pieces ≠ none := by
-  sorry
+  obtain ⟨ps, hps, _⟩ := C06_loaded H inp T h
+  rw [hps]; exact Option.some_ne_none ps
 
 end TB
